@@ -246,6 +246,16 @@ class LoopSpec:
         self.extra_havoc = list(extra_havoc)
 
 
+def stmt_matches(node, text):
+    if not isinstance(node, ast.stmt):
+        return False
+    norm = getattr(node, "_pyvc_norm", None)
+    if norm is None:
+        norm = " ".join(ast.unparse(node).split())
+        node._pyvc_norm = norm
+    return norm.startswith(" ".join(text.split()))
+
+
 def find_stmt(body, text):
     """index of the first top-level statement whose source starts with `text` (whitespace-normalised)"""
     want = " ".join(text.split())
@@ -807,7 +817,17 @@ class Interp:
             ov = self.overrides[qn + "@rec"]
         if ov is not None:
             self.override_calls[qn] = self.override_calls.get(qn, 0) + 1
-            r = ov(self, args, kwargs)
+            try:
+                r = ov(self, args, kwargs)
+            except PyExc as e:
+                from .native import PyExcMarker
+
+                try:
+                    native_exc = e.cls(e.msg) if e.cls is not UnicodeDecodeError else UnicodeDecodeError("utf-8", b"\xff", 0, 1, e.msg)
+                except Exception:
+                    native_exc = RuntimeError(e.msg)
+                self.override_log.append((qn, PyExcMarker(native_exc)))
+                raise
             self.override_log.append((qn, r))
             return r
         fnode, mod = func_node(live)
@@ -873,17 +893,9 @@ class Interp:
         self.functions_entered[key] = self.functions_entered.get(key, 0) + 1
         body = fnode.body
         if self.depth == 0 and self.cut_at is not None:
-            k = find_stmt(body, self.cut_at)
-            if k is None:
+            if not any(stmt_matches(n, self.cut_at) for n in walk_no_nested(fnode)):
                 raise Unsupported(f"cut point not found in {fnode.name}: {self.cut_at!r}")
-            self.depth += 1
-            try:
-                self.exec_block(body[:k], frame)
-            except ReturnSig as r:
-                return r.value
-            finally:
-                self.depth -= 1
-            raise CutReached(frame)
+            self._cut_frame = frame
         self.depth += 1
         try:
             self.exec_block(body, frame)
@@ -933,7 +945,9 @@ class Interp:
         qn = f"{cls.__module__}:{cls.__qualname__}"
         ov = self.overrides.get(qn)
         if ov is not None:
-            return ov(self, args, kwargs)
+            r = ov(self, args, kwargs)
+            self.override_log.append((qn, r))
+            return r
         if issubclass(cls, BaseException):
             o = self.new_object(cls)
             o.fields["args"] = STuple(list(args))
@@ -973,7 +987,11 @@ class Interp:
         for s in stmts:
             self.exec(s, frame)
 
+    _cut_frame = None
+
     def exec(self, s, frame):
+        if frame is self._cut_frame and stmt_matches(s, self.cut_at):
+            raise CutReached(frame)
         m = getattr(self, "exec_" + type(s).__name__, None)
         if m is None:
             raise Unsupported(f"statement {type(s).__name__} at line {s.lineno}")
